@@ -533,4 +533,53 @@ def _is_scan_like(ctx, opname):
     return opname in ("rxsci.data.to_list.to_list", "rxsci.operators.count.count")
 
 
-RULES = [rule_sd1, rule_sd2, rule_sc1, rule_pu1]
+def rule_sc2(ctx: Ctx) -> RuleResult:
+    """The folds that count and collect: count adds exactly 1 per item whatever the item is; to_list / to_array add the item
+    itself, once, at the end of the collection, and return that collection."""
+    r = RuleResult("SC-2", "count adds exactly 1 per item whatever the item; to_list / to_array append the item itself, once, and return the collection")
+    from .seq import _accumulator_of
+    for rel, op, what in (("rxsci/operators/count.py", "count", "count"), ("rxsci/data/to_list.py", "to_list_mux", "collect"),
+                          ("rxsci/data/to_array.py", "to_array", "collect")):
+        m, call, accfn, seed, termfn = _accumulator_of(ctx, rel, op)
+        if accfn is None:
+            raise AnalysisError("SC-2: %s::%s: the accumulator is not a function defined in the module" % (rel, op))
+        r.instances += 1
+        params = m.scopes[accfn].params
+        ACC, ITEM = ("arg", params[0]), ("arg", params[1])
+        cid = "%s::%s{accumulator}" % (rel, op)
+        for p in ctx.fn_paths(m, accfn):
+            r.paths += 1
+            r.groups.add((rel, len(r.groups)))
+            if p.outcome != "return" or p.value is None:
+                r.ob(p.outcome == "raise" and False, lambda: Finding("SC-2", cid, m.where(accfn), "an accumulator path returns no value", trace_of(p)))
+                continue
+            onitem = [e for e in p.trace if e.k == "decision" and any(x == ITEM for x in subterms(e.test))]
+            r.ob(not onitem, lambda: Finding("SC-2", cid, onitem[0].where(), "%s treats items differently according to the test '%s' on the item: "
+                                             "every item counts / is collected, whatever its value" % (op, show(onitem[0].test)), trace_of(p)))
+            v = p.value
+            muts = [e for e in p.trace if e.k == "mutate"]
+            if what == "count":
+                ok = v in (("binop", "Add", ACC, ("const", 1)), ("binop", "Add", ("const", 1), ACC)) and not muts
+                r.ob(ok, lambda: Finding("SC-2", cid, m.where(accfn), "count must return its accumulator plus 1 for every item; it returns %s" % show(v), trace_of(p)))
+                sd = _literal_seed(seed)
+                r.ob(sd == 0 and type(sd) is int, lambda: Finding("SC-2", "%s::%s{seed}" % (rel, op), m.where(call), "count must start from the int 0; "
+                                                                  "the seed is %s" % (ast.unparse(seed) if seed is not None else "missing")))
+            else:
+                adds = [e for e in muts if e.base == ACC and e.method == "append" and len(e.args) == 1 and e.args[0] == ITEM]
+                ok = v == ACC and len(muts) == 1 and len(adds) == 1
+                if not ok and not muts:
+                    # acc + [i] builds a new collection: same contents
+                    ok = v in (("binop", "Add", ACC, ("list", ITEM)),)
+                r.ob(ok, lambda: Finding("SC-2", cid, m.where(accfn), "%s must append the item itself, once, to its accumulator and return the accumulator; "
+                                         "it returns %s after %s" % (op, show(v), [e.brief() for e in muts] or "no mutation"), trace_of(p)))
+    r.require_instances(3)
+    return r
+
+
+def _literal_seed(node):
+    if isinstance(node, ast.Constant):
+        return node.value
+    return None
+
+
+RULES = [rule_sd1, rule_sd2, rule_sc1, rule_sc2, rule_pu1]
